@@ -413,6 +413,49 @@ def supporting_fact(ctx, name):
     return False, 'unknown supporting fact ' + name
 
 
+def len_bounded_push_loop(f, l, strict_only=False):
+    """(ok, reason): the loop continues only while Vec::len(V) {<,<=} B for a loop-invariant B, every trip pushes onto V and
+    nothing in the loop shrinks V"""
+    h, body = l['header'], l['body']
+    for s_ in f.switches():
+        if s_['block'] not in body:
+            continue
+        c = s_['cond']
+        if not (c[0] == 'bin' and c[1] in ('Lt', 'Le', 'Gt', 'Ge')):
+            continue
+        op, a, b = c[1], c[2], c[3]
+        if b[0] == 'call' and b[1].endswith('::len'):
+            op, a, b = {'Lt': 'Gt', 'Le': 'Ge', 'Gt': 'Lt', 'Ge': 'Le'}[op], b, a
+        if not (a[0] == 'call' and a[1].endswith('Vec::<T, A>::len')):
+            continue
+        v = strip(a[2][0])
+        # which edge stays in the loop?
+        stay = [lab for lab, tgt in s_['edges'] if tgt in body and not _leaves(f, tgt, body, h)]
+        leave = [lab for lab, tgt in s_['edges'] if tgt not in body]
+        if not leave:
+            continue
+        cont_when = [lab for lab, tgt in s_['edges'] if tgt in body]
+        if cont_when != [True] or op not in (('Lt',) if strict_only else ('Lt', 'Le')):
+            continue
+        # bound is loop invariant
+        inv = True
+        for x in walk(b):
+            if isinstance(x, tuple) and x[0] == 'var':
+                if any(d[0] in body for d in f.defs().get(x[1], [])):
+                    inv = False
+            if isinstance(x, tuple) and x[0] == 'call':
+                inv = False
+        pushes = [c_ for c_ in f.calls(lambda r: r['block'] in body and r['path'] and r['path'].endswith('Vec::<T, A>::push')) if strip(f.expr_of_operand(c_['term']['args'][0])) == v]
+        shrink = [c_ for c_ in f.calls(lambda r: r['block'] in body and r['path'] and re.search(r'Vec::<T, A>::(pop|remove|clear|truncate|drain|swap_remove|retain|split_off)$', r['path']))]
+        if inv and len(pushes) >= 1 and not shrink and not cycle_without(f, body, h, {pushes[0]['block']}):
+            return True, 'COUNTER: the loop runs only while len(v) %s bound (loop-invariant) and every trip pushes onto v' % op, (op, v, b, pushes)
+    return False, ''
+
+
+def _leaves(f, tgt, body, h):
+    return False
+
+
 def cycle_without(f, body, header, cut):
     """is there still a cycle through `header` inside `body` when blocks in `cut` are removed?"""
     seen = set()
@@ -514,6 +557,11 @@ def run(ctx):
             cut = {c['block'] for c in f.calls(lambda r: r['path'] and CONSUMING.match(r['path']))}
             ok = not cycle_without(f, l['body'], l['header'], cut)
             why = 'every trip around the loop passes a token-consuming parse call' if ok else 'a trip around the loop can avoid every token-consuming call'
+        if not ok:
+            # counter loop: `while v.len() < bound { .. v.push(..) .. }` with a loop-invariant bound
+            r_ = len_bounded_push_loop(f, l)
+            if r_[0]:
+                ok, why = True, r_[1]
         if not ok and f.id in T.LOOPS:
             cls, reason, fact = T.LOOPS[f.id]
             ok, fw = supporting_fact(ctx, fact)
